@@ -7,12 +7,15 @@ package engine
 //@ func (c *Change) Match(f) (d, ok)
 //@   trusted API-level summary; its frame (matching never writes) is checked by the write-inventory analysis of gvc, its functional behaviour by the contracts of the matchers below
 //@   requires f != nil
-//@   assigns nothing
+//@   assigns matchCount
+//@   ensures ok ==> matchCount == old(matchCount) + 1
+//@   ensures !ok ==> matchCount == old(matchCount)
 
 //@ func (c *Change) Replace(d, cl) (f, err)
 //@   trusted API-level summary; functional behaviour is covered by the replacer contracts below
-//@   assigns group(ast)
-//@   ensures err == nil ==> f != nil
+//@   assigns group(ast), replFail
+//@   ensures err == nil ==> f != nil && replFail == old(replFail)
+//@   ensures err != nil ==> replFail == old(replFail) + 1
 
 //@ func NewChangelog() (cl)
 //@   trusted allocates two go-intervals sets (dependency state, not modelled)
